@@ -14,3 +14,5 @@ INVARIANT NormalisedAtMostOne
 INVARIANT NormalisedAttainsOne
 INVARIANT NormalisedOrderKept
 INVARIANT Emit
+PROPERTY CalculateKeepsArgument
+PROPERTY RecalculateIsStuttering
